@@ -16,7 +16,7 @@ CFG = dict(
                'fsync, in-order per file / per directory, mkdir durable at once); strace + tools/fsreplay.py (reconstruction of directories); the JSON '
                'file format is abstracted to a token list whose strict prefixes never parse (validated on every torn file). The Gallina model of the '
                'catalog operations is hand-written; its agreement with the Rust code is checked by correspondence, not proved.',
-    bin='c16', n_quick=96, n_thorough=1500, run_timeout=3300,
+    bin='c16', n_quick=96, n_thorough=480, run_timeout=3300,
     corr_name='Model/Catalog.v + Model/FS.v vs RuleCatalog/SchemaCatalog/StorageEngine::new (syscall trace, live catalogs, recovered catalogs)',
     rule='hand-written corpus (witnesses of the two repaired defects, two-KG, clause edits, error-only, remove-clause of the only / last remaining clause as the final catalog operation before a restart and before the last crash points) then, one third of the cases, a TARGETED family (a rule built with 1-2 clauses and taken down clause by clause so that the final catalog write removes its last clause, optionally followed by a restart) and random histories (remove-clause aimed at the first/last/only clause of an existing rule two thirds of the time) of 1-8 catalog '
          'operations on 1-2 knowledge graphs (4 relation names, 4 clause variants incl. an arity change, 4 schema variants incl. an invalid one, '
